@@ -15,6 +15,8 @@ import sys
 import time
 
 HERE = os.path.dirname(os.path.dirname(os.path.abspath(__file__)))
+# VERIF_SNAPSHOT: run the checks from a frozen copy of /verif (so that /verif can be edited meanwhile)
+SNAP = os.environ.get("VERIF_SNAPSHOT", HERE)
 
 
 def sh(cmd, **kw):
@@ -50,8 +52,8 @@ def recheck(sid):
         for prop in ("C18", "C19"):
             env = dict(os.environ, OSU_SRC=wt + "/src", VERIF_NO_EVIDENCE="1", VERIF_REPLAY_DIR="/tmp/seeded_replays_%s" % sid)
             t = time.time()
-            q = subprocess.run(["/venv/bin/python", os.path.join(HERE, "checks/run.py"), "--property", prop, "--tier", "quick",
-                                "--no-selftests"], env=env, capture_output=True, text=True, timeout=3000, cwd=HERE)
+            q = subprocess.run(["/venv/bin/python", os.path.join(SNAP, "checks/run.py"), "--property", prop, "--tier", "quick",
+                                "--no-selftests"], env=env, capture_output=True, text=True, timeout=3000, cwd=SNAP)
             viol = [ln for ln in q.stdout.splitlines() if ln.startswith("violation:")]
             checks[prop] = {"exit": q.returncode, "wall_s": round(time.time() - t, 1),
                             "clauses": sorted({v.split("clause ")[1].split(" ")[0] for v in viol}),
